@@ -39,6 +39,26 @@ caught=sum(1 for r in rows if 'caught' in r and 'missed**' not in r)
 text="Each row is one change written by a fresh sub-agent that saw only the property text (never /verif), confirmed by me in a scratch worktree\n(`tools/seed_confirm.sh`: the repository's full suite passes with the patch, the author's demonstration fails with it and passes without it), stored under\n`seeded/<property>-<n>/` (patch.diff, demo/, meta.json, runs.jsonl) and then applied to /repo, checked (`tools/seed_run.sh`) and reverted.\n\n"
 text+=f"{len(rows)} changes, {caught} caught by the check of the property they target.\n\n"
 text+="| change | what was changed | needs | outcome |\n|---|---|---|---|\n"+"\n".join(rows)+"\n"
+text+="""
+**First pass: 28 of 40 caught.**  What the twelve misses showed, and what was changed (each change was then re-run against the seeded change *and* against the unchanged tree at several seeds):
+
+| missed | why the check was blind | strengthening |
+|---|---|---|
+| C02-2 | the tree flow only held short strings: none qualified for the long-bracket form | six strings >= 60 bytes (CR, CRLF, TAB, VT, FF, bracket runs, leading LF) among the special operands, in every operator position |
+| C04-2 | no generated token spanned several lines | string literals are re-spelled as long-bracket strings with line breaks and as quoted strings with `\\`-newline / `\\z` continuations before layout (this also exposed an open finding: remove_compound_assignment duplicates a multi-line token) |
+| C06-2 | compound-assignment targets had one key shape (`extt()[ext("k")]`) | every key/prefix shape the rule tells apart (cast, parenthesised, binary, unary, if-expression, interpolated string, index, field; parenthesised / cast / table-field prefixes), each with a logged side effect (exposed two defects, both repaired: interpolated-string key evaluated twice; missing `;` after generator-added parentheses) |
+| C08-1 | if-expressions had a single branch | all `if a then .. elseif b then .. else ..` with one and two elseif over a leaf set of 8 (exhaustive) and elseif chains in random expressions |
+| C10-2 | the change is in `file_watcher.rs`; the only back end was the API-level protocol model | live `--watch` back end (built just before) plus new operations `mvin` (file moved into the input tree from an unwatched place, new or over an existing source) and `mvout` |
+| C11-1 | existing output directories were never named with a dot | `dist.v2`, `existing/out.d` |
+| C11-2 | under fail-fast only "nothing wrong is written" was judged | with a faulty file in the work set the run has to report an error |
+| C13-1 | no string long enough for the bracket form held closers of two levels | 32 texts with every subset of `]]`, `]=]`, `]==]`, `]===]` with and without a trailing `]` |
+| C15-1 | a tolerance meant for the listed "short form shadowed by a sibling" finding also accepted any dropped `init` whatever the target's module folder name | tolerance restricted to the target mode's own folder name |
+| C17-1 | `_G` was never shadowed while the injected name was read through it | `local _G = { NAME = .. }` and a local NAME next to `_G.NAME` / `_G["NAME"]` |
+| C17-2 | profiling calls only stood in statement position | value positions (local, argument, parenthesised, condition, comparison) with 0-3 arguments returning false / nothing / several values (exposed a defect, repaired: `f() and nil` is false; and an open one: `nil` written in a multi-value tail position) |
+| C19-2 | the contradictory pair was rejected anyway, by the invalid JSON in the environment variable it named | pairs whose only possible rejection is the collision check (variable unset) |
+
+Second pass: 40 of 40 caught (see the outcome column; "missed before the check was strengthened" marks the twelve).  A change being caught by the check of *its* property is the minimum asked; several are also visible to neighbouring checks (the scope-visitor change of C01-2 / C09-2 to C01, C09, C16; the generator newline-counting change of C03-1 / C04-2 to C03 and C04; the string-form change of C02-2 / C14-1 to C02, C13, C14), which was not measured systematically.
+"""
 s=open('DESIGN.md').read()
 a=s.index('<!-- SEEDED:BEGIN -->')+len('<!-- SEEDED:BEGIN -->'); b=s.index('<!-- SEEDED:END -->')
 s=s[:a]+"\n"+text+s[b:]
